@@ -341,6 +341,55 @@ func runC12(c *Ctx) {
 		}
 	})
 	_ = refcrypto.ES256
+	// the accessor a verifier-side application uses to learn the payload hash algorithm: whatever Go
+	// integer type spells label 258 or its value, it reports that value; a text or other value is an error
+	for tl := 0; tl < gen.IntSpellings; tl++ {
+		if !gen.Fits(258, tl) {
+			continue
+		}
+		for tv := 0; tv < gen.IntSpellings+1; tv++ {
+			for _, a := range []int64{-16, -43, -44, -15, 99, 0} {
+				var v any
+				if tv == gen.IntSpellings {
+					v = cose.Algorithm(a)
+				} else if gen.Fits(a, tv) {
+					v = gen.SpellIntAs(a, tv)
+				} else {
+					continue
+				}
+				h := cose.ProtectedHeader{gen.SpellIntAs(258, tl): v, int64(1): cose.AlgorithmES256}
+				cell := fmt.Sprintf("accessor/PayloadHashAlgorithm/label=%s/value=%T(%d)", gen.SpellNames[tl], v, a)
+				in := map[string]any{"cell": cell}
+				var got cose.Algorithm
+				var err error
+				if guard(rec, "PayloadHashAlgorithm", in, func() { got, err = h.PayloadHashAlgorithm() }) {
+					continue
+				}
+				rec.Eval(1)
+				rec.Class(cell)
+				rec.Event("accessor-cases")
+				if err == nil && int64(got) != a {
+					rec.Violate("accessor", cell, fmt.Sprintf("PayloadHashAlgorithm reports %d for a header that says %d", int64(got), a), in)
+				}
+				if err != nil {
+					rec.Event("accessor:error")
+				}
+			}
+		}
+	}
+	for _, v := range []any{"SHA-256", []byte{1}, nil, 1.5, true} {
+		h := cose.ProtectedHeader{int64(258): v}
+		var err error
+		in := map[string]any{"cell": fmt.Sprintf("accessor/PayloadHashAlgorithm/value=%T", v)}
+		if guard(rec, "PayloadHashAlgorithm", in, func() { _, err = h.PayloadHashAlgorithm() }) {
+			continue
+		}
+		rec.Eval(1)
+		rec.Class(in["cell"].(string))
+		if err == nil {
+			rec.Violate("accessor", "non-integer", "PayloadHashAlgorithm returned an algorithm for a non-integer value", in)
+		}
+	}
 	rec.Require("SignHashEnvelope:produced", 1000)
 	rec.Require("SignHashEnvelope:refused", 1000)
 	rec.Require("VerifyHashEnvelope(grid):accepted", 10)
